@@ -129,6 +129,16 @@ func (e *fnEnc) run() (err error) {
 	}()
 	e.analyzeCFG()
 	fn := e.fn
+	if e.ctr.Options["pure"] != "" {
+		if why := e.impureReason(); why != "" {
+			e.orphanClauses = append(e.orphanClauses, fmt.Sprintf("%s is declared pure but %s", e.shortFuncName(), why))
+		}
+	}
+	for _, cl := range e.ctr.Clauses {
+		if strings.HasPrefix(cl.Kind, "loop-") && cl.Loop >= len(e.loops) {
+			e.orphanClauses = append(e.orphanClauses, fmt.Sprintf("%s: loop %d clause refers to a loop that does not exist (function has %d loops)", e.shortFuncName(), cl.Loop, len(e.loops)))
+		}
+	}
 
 	// entry state
 	st := &state{m: map[string]Term{}}
@@ -720,3 +730,54 @@ func (e *fnEnc) resolveLocal(name string, b *ssa.BasicBlock, idx int, st *state)
 }
 
 var _ = token.NoPos
+
+// impureReason checks syntactically that a function declared `pure` only reads
+// its arguments and local memory and calls pure functions.
+func (e *fnEnc) impureReason() string {
+	local := func(v ssa.Value) bool {
+		for {
+			switch x := v.(type) {
+			case *ssa.Alloc:
+				return true
+			case *ssa.FieldAddr:
+				v = x.X
+			case *ssa.IndexAddr:
+				v = x.X
+			default:
+				return false
+			}
+		}
+	}
+	for _, b := range e.fn.Blocks {
+		for _, in := range b.Instrs {
+			switch in := in.(type) {
+			case *ssa.Store:
+				if !local(in.Addr) {
+					return "stores to non-local memory"
+				}
+			case *ssa.MapUpdate, *ssa.Go, *ssa.Send, *ssa.Defer, *ssa.Select:
+				return fmt.Sprintf("contains %T", in)
+			case *ssa.UnOp:
+				if in.Op == token.MUL {
+					if _, isG := in.X.(*ssa.Global); isG {
+						return "reads a package-level variable"
+					}
+				}
+			case *ssa.Call:
+				if _, isB := in.Call.Value.(*ssa.Builtin); isB {
+					continue
+				}
+				name, _ := e.calleeName(&in.Call)
+				if c := e.eng.contracts[name]; c != nil && c.Options["pure"] != "" {
+					continue
+				}
+				switch name {
+				case "cmp.Compare", "strings.Compare", "bytes.Compare":
+					continue
+				}
+				return "calls " + shortCallee(name) + " which is not declared pure"
+			}
+		}
+	}
+	return ""
+}
